@@ -715,6 +715,10 @@ class ExcelInPython:
             column_number = row_number
             row_number = None
 
+        if (row_number or 0) < 0 or (column_number or 0) < 0:
+            # negative numbers must not wrap around to the end of the area
+            return '#VALUE!'
+
         try:
             # Если не указаны номер столбца/строки, берем значения из всех столбцов/строк
             row = [array[row_number - 1]] if row_number else array
